@@ -21,7 +21,7 @@ pub struct CovCase {
 }
 
 pub fn gen_case(rng: &mut Rng, i: usize, maxrecs: usize) -> CovCase {
-    let k = [1usize, 2, 3, 7, 15, 31][i % 6];
+    let k = if i % 10 == 7 { 3 } else { [1usize, 2, 3, 7, 15, 31][i % 6] };
     let n = if i % 6 == 5 { rng.below(3) as usize } else { rng.range(1, maxrecs as u64) as usize };
     let mk = |rng: &mut Rng, n: usize, i: usize| -> Vec<Vec<u8>> {
         (0..n)
@@ -43,6 +43,11 @@ pub fn gen_case(rng: &mut Rng, i: usize, maxrecs: usize) -> CovCase {
             .collect()
     };
     let mut recs = mk(rng, n, i);
+    let big = i % 10 == 7;
+    if big {
+        // hundreds of short distinct records in one batch on many threads
+        recs = (0..350).map(|j| { let len = 8 + (j % 23); gen_seq(rng, len, false) }).collect();
+    }
     if i % 11 == 3 {
         // only zero-length records: the final batch has total length 0
         recs = vec![Vec::new(); 1 + rng.below(3) as usize];
@@ -54,8 +59,8 @@ pub fn gen_case(rng: &mut Rng, i: usize, maxrecs: usize) -> CovCase {
         bs: *rng.pick(&[1usize, 2, 3, 5, 16]),
         bc: *rng.pick(&[1usize, 2, 3, 5, 16]),
         norm: i % 2 == 0,
-        threads: 1 + rng.below(16) as usize,
-        mem: *rng.pick(&[0.5f64, 1.0, 6.0]),
+        threads: if big { 8 } else { 1 + rng.below(16) as usize },
+        mem: if big { 6.0 } else { *rng.pick(&[0.5f64, 1.0, 6.0]) },
         delim: *rng.pick(&[" ", ",", "\t"]),
         recs,
         crecs,
